@@ -22,6 +22,7 @@ def step (line : String) : String :=
     | "dyn" :: rest => Dynamics.run rest
     | "sw" :: rest => DynamicsSW.run rest
     | "inv" :: rest => Invariants.run rest
+    | "sym" :: rest => Symmetry.run rest
     | _ => none
   r.getD "bad-op"
 
